@@ -316,6 +316,35 @@ fn component_cases() -> Vec<(&'static str, Box<dyn Fn() -> Result<u64, Bad> + Se
             })?;
             n += 1;
         }
+        // ratio sweep: from heavy up-sampling to one output stepping over tens of thousands of source
+        // frames, each ratio given through every constructor and every setter, three interpolators
+        const RATIOS: [f64; 20] = [0.001, 0.01, 0.1, 0.5, 1.0, 2.0, 3.0, 7.9, 8.0, 8.5, 9.0, 12.0, 16.5, 33.0, 64.0, 100.0, 257.0, 1000.0, 4097.0, 65537.0];
+        for (ri, &r) in RATIOS.iter().enumerate() {
+            let (s1, _) = Gen::new(|n| (n % 31) as f64 / 31.0);
+            let (s2, _) = Gen::new(|n| [(n % 29) as i16 * 100; 2]);
+            let (s3, _) = Gen::new(|n| [(n % 97) as f32 / 97.0; 2]);
+            let (s4, _) = Gen::new(|n| (n % 13) as f64 / 13.0);
+            let (ctl, _) = Gen::new(move |n| if n % 3 == 0 { r } else { 0.75 });
+            let mut c1 = Converter::scale_playback_hz(s1, Floor::new(0.0f64), r);
+            let mut c2 = Converter::from_hz_to_hz(s2, Linear::new([0i16; 2], [0; 2]), r * 8_000.0, 8_000.0);
+            let mut c3 = Converter::scale_sample_hz(s3, Sinc::new(Fixed::from([[0.0f32; 2]; 8])), 1.0 / r);
+            let mut m4 = s4.mul_hz(Linear::new(0.0, 0.0), ctl);
+            let outs = if r > 1000.0 { 6 } else { 24 };
+            for i in 0..outs {
+                quiet("converter next() over the ratio sweep", || {
+                    let o = (c1.next(), c2.next(), c3.next(), m4.next(), c1.is_exhausted());
+                    if i == outs / 2 {
+                        // switch to the neighbouring ratio through each setter
+                        let r2 = RATIOS[(ri + 7) % RATIOS.len()];
+                        c1.set_playback_hz_scale(r2);
+                        c2.set_hz_to_hz(r2 * 16_000.0, 16_000.0);
+                        c3.set_sample_hz_scale(1.0 / r2);
+                    }
+                    o
+                })?;
+                n += 1;
+            }
+        }
         Ok(n)
     });
     case!("window functions, Window, Windower, Windowed", || {
